@@ -97,7 +97,10 @@ partial def getVal (j : Json) : Except String Val :=
     | _, _, _, _, _, _, some (.str s), _ => pure (.markup (Str.ofString s))
     | _, _, _, _, _, _, _, some (.str s) => pure (.fn s)
     | _, _, _, _, _, _, _, _ =>
-      if (fld "dflt").isSome then pure .dflt else throw "bad value spec"
+      if (fld "dflt").isSome then pure .dflt
+      else match fld "template" with
+        | some t => do let k ← t.getNat?; pure (.template_ k)       -- library template k (1-based; see "libs")
+        | none => throw "bad value spec"
   | _ => throw "bad value spec"
 
 def getKVs (j : Json) : Except String (List (Val × Val)) := do
@@ -174,7 +177,10 @@ def getRenderReq (j : Json) : Except String RenderReq := do
     implicitI18nAttrs := match cfg.getObjVal? "implicit_i18n_attributes" with
       | .ok (.arr a) => a.toList.filterMap (fun x => match x with | .str s => some (Str.ofString s) | _ => none)
       | _ => [] }
-  pure { src := src, textMode := flag "text_mode" false, strict := flag "strict" true, bcfg := bcfg,
+  let libs : List Str := match j.getObjVal? "libs" with
+    | .ok (.arr a) => a.toList.filterMap (fun x => match x with | .str s => some (Str.ofString s) | _ => none)
+    | _ => []
+  pure { libs := libs, src := src, textMode := flag "text_mode" false, strict := flag "strict" true, bcfg := bcfg,
          booleanAttrs := booleans, oracle := oracle, tab := tab, vars := vars,
          pyBuiltins := Gen.pyBuiltins, talesExc := Gen.talesExceptions, existsExc := Gen.existsExceptions,
          excParents := Gen.excParents, htmlBooleans := Gen.booleanHtml.map Str.ofString }
